@@ -78,16 +78,18 @@ def choose_widths(rng, crit, maxw, k):
     out = cand[:k]
     out.append(rng.randint(1, maxw))
     if rng.random() < 0.2:
-        out.append(rng.choice([1, 2, 80, maxw]))
+        out.append(rng.choice([0, 1, 2, 80, maxw]))
+    if rng.random() < 0.01:
+        out.append(-rng.randint(1, 5))  # outside the modelled domain: answered `unmodelled`, still evaluated directly
     return out
 
 
 def eval_value(rec, v, tier_quick, n_cfg, tag):
     """all checks for one value under `n_cfg` option sets x critical widths."""
     import lib_pretty as L
-    from rich.cells import cell_len
     from rich.pretty import pretty_repr, traverse
 
+    cell_len = L.table_cell_len  # oracle side: the width table only, none of rich.cells' code
     rng = rec.rng
     maxw = 60 if tier_quick else 200
     cyc = L.has_cycle(v)
@@ -175,7 +177,11 @@ def eval_value(rec, v, tier_quick, n_cfg, tag):
     # ---- traverse: correspondence on the heap + abbreviation counts on the real tree
     for (ml, ms) in trees:
         heap, root, table = heaps[ms]
-        node = traverse(v, max_length=ml, max_string=ms)
+        try:
+            node = traverse(v, max_length=ml, max_string=ms)
+        except RecursionError:
+            rec.check(False, "traverse", dict(value=_short(v), max_length=ml, max_string=ms), "did not terminate (RecursionError)")
+            continue
         rec.case("pretty.traverse", [ARRAY_LITERAL, heap, root, enc_opt(ml), enc_opt(ms), table], L.enc_node(node), shape=("ml" if ml is not None else "") + ("ms" if ms is not None else "") + ("cyc" if cyc else ""))
         inp = dict(value=_short(v), max_length=ml, max_string=ms)
         if L.is_container(v) and ml is not None and len(v) > 0:
@@ -260,9 +266,9 @@ def rand_node(rng, depth, wellformed):
 
 def synth(rec, n_cases, tier_quick):
     import lib_pretty as L
-    from rich.cells import cell_len
     from rich.pretty import _Line, pretty_repr
 
+    cell_len = L.table_cell_len
     rng = rec.rng
     for i in range(n_cases):
         wf = rng.random() < 0.5
@@ -362,7 +368,7 @@ def glue(rec, n_cases):
 
 
 def cell_ok(line):
-    from rich.cells import cell_len
+    from lib_pretty import table_cell_len as cell_len
 
     return cell_len(line) <= 200 and "\t" not in line
 
@@ -471,22 +477,21 @@ def run(ctx):
     P = 14
     tasks = [("fixed", rng.getrandbits(32), quick, None)]
     tasks += [("exh", rng.getrandbits(32), quick, (k, P)) for k in range(P)]
-    n_rand = 420 if quick else 9000
-    tasks += [("rand", rng.getrandbits(32), quick, (n_rand, 4 if quick else 6)) for _ in range(P)]
-    tasks += [("cyc", rng.getrandbits(32), quick, 150 if quick else 3000) for _ in range(2)]
-    tasks += [("synth", rng.getrandbits(32), quick, 900 if quick else 15000) for _ in range(4)]
-    tasks += [("glue", rng.getrandbits(32), quick, 150 if quick else 2500)]
+    tasks += [("rand", rng.getrandbits(32), quick, (150, 4 if quick else 6)) for _ in range(40 if quick else 700)]
+    tasks += [("cyc", rng.getrandbits(32), quick, 100) for _ in range(3 if quick else 50)]
+    tasks += [("synth", rng.getrandbits(32), quick, 450) for _ in range(8 if quick else 120)]
+    tasks += [("glue", rng.getrandbits(32), quick, 150) for _ in range(1 if quick else 16)]
     with multiprocessing.get_context("fork").Pool(16) as pool:
-        results = pool.map(work, tasks, chunksize=1)
-    for (kind, _, _, _), (cases, fails, passes, notes) in zip(tasks, results):
-        for fn, args, ans, shape, sample in cases:
-            ctx.case(fn, args, ans, shape=shape, sample=sample)
-        for site, n in passes.items():
-            ctx.note("prop:" + site, n)
-        for site, inp, what, finding in fails:
-            ctx.check(False, site, inp, what, finding=finding)
-        for k, n in notes.items():
-            ctx.note(k, n)
+        # ordered, lazily consumed: the verdict does not depend on worker timing
+        for (kind, _, _, _), (cases, fails, passes, notes) in zip(tasks, pool.imap(work, tasks, chunksize=1)):
+            for fn, args, ans, shape, sample in cases:
+                ctx.case(fn, args, ans, shape=shape, sample=sample)
+            for site, n in passes.items():
+                ctx.note("prop:" + site, n)
+            for site, inp, what, finding in fails:
+                ctx.check(False, site, inp, what, finding=finding)
+            for k, n in notes.items():
+                ctx.note(k, n)
     ctx.flush()
     ctx.rule = (
         "bounded-exhaustive: every container kind x 0..3 children over %r, each wrapped in every kind and in one-element "
@@ -499,8 +504,60 @@ def run(ctx):
 
 
 def replay(ctx, case):
+    """re-run one recorded failing input on the real code (layout/eval sites record the call's arguments)."""
     print("site:", case.get("site"))
     print("input:", case.get("input"))
     print("what:", case.get("what"))
+    inp = case.get("input")
+    if isinstance(inp, dict) and "max_width" in inp and "value" in inp:
+        import lib_pretty as L
+        from rich.pretty import pretty_repr
+
+        try:
+            v = eval(inp["value"], dict(L.EVAL_NS))  # noqa: S307 - the recorded repr of the value
+        except Exception as e:  # noqa: BLE001
+            print("value cannot be rebuilt from its repr:", e)
+            return False
+        kw = dict(max_width=inp["max_width"], indent_size=inp["indent_size"], max_length=inp["max_length"], max_string=inp["max_string"], expand_all=inp["expand_all"])
+        out = pretty_repr(v, **kw)
+        tree = L.ref_tree(v, inp["max_length"], inp["max_string"])
+        lines = L.ref_lines(tree, L.table_cell_len, inp["max_width"], inp["indent_size"], inp["expand_all"])
+        ok, _ = L.ref_matches(out, lines, inp["indent_size"])
+        if ok and inp["max_length"] is None and inp["max_string"] is None and L.evaluable(v):
+            try:
+                ok = L.same(eval(out, dict(L.EVAL_NS)), v)  # noqa: S307
+            except Exception:  # noqa: BLE001
+                ok = False
+        print("pretty_repr now gives:", repr(out))
+        return ok
     print("re-run `./check C16` to re-evaluate (the generators are seeded: VERIF_SEED=%s)" % case.get("seed"))
     return False
+
+
+MANIFEST = {
+    "text": "Lean 4 theorems (Props/C16.lean; arbitrary width function, no bound on tree size, depth, width or indent) about an "
+    "executable model of rich/pretty.py (Node.iter_tokens/check_length/__str__, _Line.expandable/check_length/expand/__str__, "
+    "the Node.render loop, traverse over a heap of objects with identities, pretty_repr): the render loop terminates within "
+    "weight(node)+2 steps and equals a structural specification (open / one item per line at +indent / close, recursively); "
+    "layout_only: erasing indentation, line breaks and the blank after kept separators from the rendered lines gives exactly "
+    "the one-line form, so no comma/brace/key/leaf is lost or added (proved for the repaired variant, machine-checked "
+    "counter-example for today's code: F24); one line iff leaf/empty or (not expand_all and the one-line form fits); every kept "
+    "container line fits max_width; expand_all leaves no container on one line; indentation is a whole multiple of indent_size "
+    "with braces aligned and contents strictly deeper; traverse is total on every well-formed heap including cyclic ones, emits "
+    "`...` exactly for containers on the current path, produces well-formed trees, and max_length/max_string abbreviations "
+    "show min(N,max) items/characters and report exactly N-max; F12 (empty array literal) as a machine-checked witness. "
+    "Tie: ~230k (quick) / millions (thorough) generated cases per run compare model and rich.pretty character for character "
+    "(traverse on a heap description of the real object graph, Node.render, pretty_repr, and the Node/_Line methods on "
+    "synthetic also ill-formed objects); on every case the real output is eval()-ed and compared for deep typed equality, "
+    "compared with a statement-level reference printer up to the legal trailing comma, with repr() when it fits, and for "
+    "indentation regularity, at the widths where a fit decision flips (+-1).",
+    "note": "PARTIAL by nature: 'evaluates back' rests on Python's eval() and repr() of leaves, which are runtime and enter the "
+    "model as opaque token strings (str/bytes: characters are modelled, repr of the printed prefix is supplied per case); this "
+    "part is validated per generated case, not proved. Trusted: Lean kernel; axioms propext/Classical.choice/Quot.sound; the "
+    "correspondence harness (heap/Node encoders, reference printer, deep equality); widths/indent/max_length/max_string are "
+    "naturals (negative values answer `unmodelled`); identities = id() of containers; the width function is the generated "
+    "CELL_WIDTHS table (C13). Not modelled: Pretty.__rich_measure__, install(), highlighting/indent guides (only that "
+    "Pretty.__rich_console__ and pprint pass their options to pretty_repr is checked). With today's code the check prints "
+    "VIOLATION for two genuine defects until pending_fixes/C16-*.diff are applied and the two CODE VARIANT FLAGS set to 0.",
+    "design_ref": "DESIGN.md section 7, C16; section 8 F12, F24",
+}
